@@ -20,7 +20,10 @@ TAILS = ["plain", "try_except_last", "try_finally_last", "if_return_const", "if_
          "if_continue", "raise", "nested_with", "swallow", "empty", "if_else_return", "return_in_try_finally",
          "nested_async_with", "try_except_else_last", "if_return_none", "oneline_pass", "try_finally_del", "while_last",
          # the body's last instruction carries inline cache entries (the exception-table range ends on a CACHE unit)
-         "store_attr_last", "store_subscr_last", "if_continue_last"]
+         "store_attr_last", "store_subscr_last", "if_continue_last",
+         # control leaves the with body from INSIDE a nested handler range (the instruction that reaches the inlined
+         # exit call is covered by the try's table entry first, by the with's own entry only further out the chain)
+         "try_continue_last", "try_break_last", "try_return_last"]
 CONTS = ["nothing", "stmt", "second_with"]
 
 
@@ -78,7 +81,7 @@ def build(kind: str, ctx: str, is_async: bool, nitems: int, tail: str, cont: str
     if tail == "nested_async_with" and kind in ("gen", "func"):
         return None
     in_loop = ctx in ("for", "while", "for_else", "in_with_for", "in_with_while", "in_with_while_with", "in_with_for_with")
-    if tail in ("if_break", "if_continue", "if_continue_last") and not in_loop:
+    if tail in ("if_break", "if_continue", "if_continue_last", "try_continue_last", "try_break_last") and not in_loop:
         return None
     if kind == "agen" and tail in ("if_return_const", "if_return_value", "if_else_return", "return_in_try_finally"):
         # async generators cannot return a value; the bare-return shape is covered by if_return_none
@@ -106,6 +109,9 @@ def build(kind: str, ctx: str, is_async: bool, nitems: int, tail: str, cont: str
         body = S() + ["if E.c(0):", "    continue"] + S()
     elif tail == "if_continue_last":
         body = S() + ["if E.c(0):", "    continue"]
+    elif tail in ("try_continue_last", "try_break_last", "try_return_last"):
+        leave = {"try_continue_last": "continue", "try_break_last": "break", "try_return_last": "return"}[tail]
+        body = S() + ["try:"] + ind(["if E.c(0):", "    " + leave]) + ["except E.Err:"] + ind(["E.v()"])
     elif tail in ("raise", "swallow"):
         body = S() + ["if E.c(0):", "    raise E.Err()"]
     elif tail == "nested_with":
